@@ -42,6 +42,12 @@ func goid() uint64 {
 	return id
 }
 
+// SetCPUs: natively the CPU quota of the process is changed for real.
+func SetCPUs(n int) { runtime.GOMAXPROCS(n) }
+
+// NondetMapOrder only matters to the engine (natively the Go runtime picks the order).
+func NondetMapOrder(on bool) {}
+
 // SetPreemptionBound only matters to the engine's exploration.
 func SetPreemptionBound(n int) {}
 
